@@ -372,13 +372,13 @@ func (r *DetRand) next() uint64 {
 	return x
 }
 
-func (r *DetRand) Float64() float64                  { return float64(r.next()>>11) / (1 << 53) }
-func (r *DetRand) Int64N(n int64) int64              { return int64(r.next() % uint64(n)) }
-func (r *DetRand) IntN(n int) int                    { return int(r.next() % uint64(n)) }
+func (r *DetRand) Float64() float64                   { return float64(r.next()>>11) / (1 << 53) }
+func (r *DetRand) Int64N(n int64) int64               { return int64(r.next() % uint64(n)) }
+func (r *DetRand) IntN(n int) int                     { return int(r.next() % uint64(n)) }
 func (r *DetRand) Shuffle(n int, swap func(i, j int)) {}
-func (r *DetRand) Uint32() uint32                    { return uint32(r.next()) }
-func (r *DetRand) Uint64() uint64                    { return r.next() }
-func (r *DetRand) IsThreadSafe()                     {}
+func (r *DetRand) Uint32() uint32                     { return uint32(r.next()) }
+func (r *DetRand) Uint64() uint64                     { return r.next() }
+func (r *DetRand) IsThreadSafe()                      {}
 func (r *DetRand) Read(p []byte) (int, error) {
 	for i := range p {
 		p[i] = byte(r.next())
